@@ -45,8 +45,11 @@ def proj_others(lib):
     return out
 
 
-def run_case(bib, kv, op, inplace):
-    """kv: list of (key, value). Returns dict(ctor, raised, out, idem, others)."""
+def run_case(bib, kv, op, inplace, history=False):
+    """kv: list of (key, value). Returns dict(ctor, raised, out, idem, others).
+
+    history=True: the entry has already been through all three middlewares (with other fields) and has been
+    edited since, so it carries their parser metadata - the result must not depend on that."""
     M = bib.model
     try:
         mw = make_mw(bib, op, inplace)
@@ -57,6 +60,15 @@ def run_case(bib, kv, op, inplace):
     target = M.Entry("article", "Key1", [M.Field(k, v, i) for i, (k, v) in enumerate(kv)], start_line=3, raw="raw1")
     other = M.Entry("book", "zz", [M.Field("b", "1"), M.Field("A", "2"), M.Field("a", "3")], start_line=9, raw="raw2")
     lib = bib.Library([M.Preamble("p"), target, M.String("B", "x"), M.ImplicitComment("c b a")])
+    if history:
+        target.fields = [M.Field("Zz", "0"), M.Field("b", "0")]
+        mws = bib.middlewares
+        for pre in (mws.SortFieldsAlphabeticallyMiddleware(allow_inplace_modification=inplace),
+                    mws.SortFieldsCustomMiddleware(order=("b",), allow_inplace_modification=inplace),
+                    mws.NormalizeFieldKeys(allow_inplace_modification=inplace)):
+            lib = pre.transform(lib)
+        target = lib.blocks[1]
+        target.fields = [M.Field(k, v, i) for i, (k, v) in enumerate(kv)]
     before = proj_others(lib)
     try:
         lib2 = mw.transform(lib)
@@ -86,9 +98,9 @@ def _chunk(lines):
         e = core.parse_export(line)
         kv = [(k, str(v)) for k, v in e["fs"]]
         want = [[k, str(v)] for k, v in e["out"]]
-        for inplace in (True, False):
+        for inplace, history in ((True, False), (False, False), (True, True), (False, True)):
             res["n"] += 1
-            got = run_case(bib, kv, e["op"], inplace)
+            got = run_case(bib, kv, e["op"], inplace, history)
             clause = ""
             if got["ctor"] != e["ctor"]:
                 clause = "order_validation"
@@ -103,7 +115,7 @@ def _chunk(lines):
             elif not got["others"]:
                 clause = "others_untouched"
             if clause:
-                res["mism"].append({"clause": clause, "input": {"kind": "case", "fields": kv, "op": e["op"], "inplace": inplace},
+                res["mism"].append({"clause": clause, "input": {"kind": "case", "fields": kv, "op": e["op"], "inplace": inplace, "history": history},
                                     "observed": got, "expected": {"ctor": e["ctor"], "out": want}})
         if not res["samples"] and len(kv) >= 3 and e["op"]["m"] == "custom" and e["ctor"]:
             res["samples"].append({"fields": kv, "op": e["op"], "result": want})
@@ -132,7 +144,7 @@ def run(chk: core.Check):
         for m in o["mism"]:
             chk.mismatch(m["clause"], m["input"], m["observed"], m["expected"],
                          spec={"module": "SortFields", "operator": "Apply/Holds"}, kind="sortfields_case")
-    if tot != 2 * res.exported or tot == 0:
+    if tot != 4 * res.exported or tot == 0:
         raise core.MachineryError("C17 export/replay count mismatch")
 
     # ---- T3 ----------------------------------------------------------------
@@ -156,12 +168,13 @@ def run(chk: core.Check):
         rank = {k: i + 1 for i, k in enumerate(allk)}
         kv = [(k, str(i + 1)) for i, k in enumerate(keys)]
         inplace = rnd.random() < 0.5
-        got = run_case(bib, kv, op, inplace)
+        history = rnd.random() < 0.5
+        got = run_case(bib, kv, op, inplace, history)
         cases.append({"id": cid, "op": op,
                       "fs": [{"k": k, "v": i + 1, "lk": k.lower(), "r": rank[k], "lr": rank[k.lower()]} for i, k in enumerate(keys)],
                       "out": [[k, int(v)] for k, v in got["out"]], "ctor": got["ctor"], "raised": got["raised"],
                       "idem": got["idem"], "others": got["others"]})
-        raw[cid] = (kv, op, inplace, got)
+        raw[cid] = (kv, op, inplace, got, history)
     verdict = core.validate_traces("Trace_SortFields", cases, shards=8)
     for r in verdict.results:
         chk.add_tlc(r, "Trace_SortFields shard", count_states=False)
@@ -169,8 +182,8 @@ def run(chk: core.Check):
     chk.evaluations += len(cases)
     chk.clause("T3.entries", len(cases))
     for rj in verdict.rejects:
-        kv, op, inplace, got = raw[rj["reject"]]
-        chk.mismatch(rj["clause"], {"kind": "case", "fields": kv, "op": op, "inplace": inplace}, got, rj["expected"],
+        kv, op, inplace, got, history = raw[rj["reject"]]
+        chk.mismatch(rj["clause"], {"kind": "case", "fields": kv, "op": op, "inplace": inplace, "history": history}, got, rj["expected"],
                      spec={"module": "Trace_SortFields"}, kind="sortfields_case")
     chk.assumptions += ["key order is Python's str order, passed to TLC as ranks", "values are distinct per field"]
 
@@ -178,7 +191,7 @@ def run(chk: core.Check):
 def replay(rec, chk):
     bib = core.import_repo()
     inp = rec["input"]
-    got = run_case(bib, [tuple(x) for x in inp["fields"]], inp["op"], inp["inplace"])
+    got = run_case(bib, [tuple(x) for x in inp["fields"]], inp["op"], inp["inplace"], inp.get("history", False))
     exp = rec["expected"]
     want = [[k, str(v)] for k, v in exp["out"]]
     ok = got["ctor"] == exp["ctor"] and (not exp["ctor"] or (not got["raised"] and got["out"] == want and got["idem"] and got["others"]))
